@@ -1,0 +1,7 @@
+//go:build !verif
+// +build !verif
+
+package main
+
+// Verification hook disabled: an empty, inlinable stub.
+func verifTrace(event string, gen int) {}
